@@ -164,3 +164,13 @@ package arraystack
 //@   ensures [C12] atomic: result != nil ==> arraylist.Seq(stack.list) == old(arraylist.Seq(stack.list))
 //@   ensures [C11 C12] loaded: jarr_kind(bytes, elemof(stack.list.elements)) == 3 ==> len(arraylist.Seq(stack.list)) == jarr_len(bytes, elemof(stack.list.elements)) && (forall i :: 0 <= i && i < len(arraylist.Seq(stack.list)) ==> arraylist.Seq(stack.list)[i] == jarr_at(bytes, i, elemof(stack.list.elements)))
 //@   ensures [C12] null: jarr_kind(bytes, elemof(stack.list.elements)) == 2 ==> len(arraylist.Seq(stack.list)) == 0
+
+//@ -- String: starts with the container's name; reads only (C15, C18)
+//@ func Stack.String
+//@   requires Inv(stack)
+//@   modifies nothing
+//@   ensures [C15 C17 C18] hasPrefix(result, "ArrayStack")
+//@   loop 1:
+//@     invariant 0 - 1 <= rangeindex && rangeindex < rangelen && (rangelen == 0 ==> rangeindex == 0 - 1) && rangelen >= 0
+//@     invariant isnil(values) || fresh(arr(values))
+//@     decreases rangelen - rangeindex
